@@ -3,7 +3,7 @@
 which check caught it in seeded/<id>/meta.json; prints a markdown table.  usage: tools/seed_matrix.py [ids...]"""
 import json, os, subprocess, sys, concurrent.futures as cf
 ROOT = os.path.dirname(os.path.dirname(os.path.abspath(__file__)))
-EXTRA = {"C15-J": ["C07", "C02"], "C07-A": ["C01"], "C07-B": ["C02"], "C15-A": ["C19"], "C16-A": ["C19"], "C11-B": ["C19"], "C09-B": ["C19"]}
+EXTRA = {"C15-J": ["C07", "C02"], "C14-P": ["C02", "C19"], "C12-P": ["C04", "C18"], "C05-M": ["C17", "C19"], "C07-A": ["C01"], "C07-B": ["C02"], "C15-A": ["C19"], "C16-A": ["C19"], "C11-B": ["C19"], "C09-B": ["C19"]}
 
 
 def one(sid):
